@@ -14,7 +14,7 @@ import (
 
 func init() {
 	register(&PropInfo{
-		ID: "C01", Level: "other", MinObls: 27,
+		ID: "C01", Level: "other", MinObls: 23,
 		Explanation: "Static rules over the obfs4 data path: R1 packet layout agreement between makePacket (type@0, BE16(len(data))@1, data@3, zero padding@3+len(data), total 3+len+pad) and readPackets (type@0, BE16@1, payload [3:3+payloadLen]); " +
 			"R2 only payload surfaces: the only writer of the application buffer is the payload arm, with exactly that payload slice, under Decode ok and both packet-length checks, and delivery depends on no other condition; R3 frame lock-step of Encoder and Decoder (nonce counter, length mask, all-or-nothing reads); " +
 			"R4 Write chops the caller's bytes into packets without gaps and returns their sum; R5 the client keeps the bytes that followed the server handshake (Next(n) with the parser's n, no Reset/Truncate); R6 drain-before-block: the blocking network read of the data phase is skipped while handshake leftovers are pending; " +
